@@ -39,7 +39,7 @@ import (
 // ---------------------------------------------------------------------------
 
 type SWOp struct {
-	Kind  string `json:"kind"` // start | once | stop | advance | join | leave | offline | online | failsend | healsend | swapheal | restart | settle
+	Kind  string `json:"kind"` // start | once | stop | advance | join | leave | offline | online | failsend | healsend | swapheal | addrs | restart | settle
 	Keys  []int  `json:"keys,omitempty"`
 	Mins  int    `json:"mins,omitempty"`
 	Peers []int  `json:"peers,omitempty"`
@@ -162,7 +162,19 @@ func (e *swEnv) SendMessage(ctx context.Context, p peer.ID, m *pb.Message) error
 		e.tr.Add("SendFail", "k", ki, "p", pi, "ts", e.now())
 		return errors.New("sim: unreachable")
 	}
+	// exactly the node's current addresses (byte for byte, any order)
 	addrsOK := len(m.GetProviderPeers()) == 1 && peer.ID(m.GetProviderPeers()[0].GetId()) == e.self && len(m.GetProviderPeers()[0].GetAddrs()) == len(e.addrs)
+	if addrsOK {
+		have := map[string]bool{}
+		for _, a := range m.GetProviderPeers()[0].GetAddrs() {
+			have[string(a)] = true
+		}
+		for _, a := range e.addrs {
+			if !have[string(a.Bytes())] {
+				addrsOK = false
+			}
+		}
+	}
 	near := e.nearest(kadOf(m.GetKey()), e.sc.R)
 	isNear := false
 	for _, x := range near {
@@ -263,7 +275,7 @@ func runSWInBubble(t *testing.T, sc *SWScenario) []sim.Ev {
 		}
 		inner, err = provider.New(
 			provider.WithPeerID(e.self), provider.WithRouter(e), provider.WithMessageSender(e),
-			provider.WithSelfAddrs(func() []ma.Multiaddr { return e.addrs }),
+			provider.WithSelfAddrs(func() []ma.Multiaddr { e.mu.Lock(); defer e.mu.Unlock(); return e.addrs }),
 			provider.WithReplicationFactor(sc.R),
 			provider.WithReprovideInterval(time.Duration(sc.Interval)*time.Minute),
 			provider.WithMaxReprovideDelay(time.Duration(sc.MaxDelay)*time.Minute),
@@ -356,6 +368,16 @@ func runSWInBubble(t *testing.T, sc *SWScenario) []sim.Ev {
 				}
 			}
 			e.tr.Add("Swarm", "swarm", swarmList(), "nearest", nearestOf(), "ts", e.now())
+			e.mu.Unlock()
+		case "addrs":
+			// the node's addresses change (Mins selects the new set: one to three addresses)
+			synctest.Wait()
+			e.mu.Lock()
+			e.addrs = nil
+			for j := 0; j <= op.Mins%3; j++ {
+				e.addrs = append(e.addrs, sim.DefaultAddr(100*op.Mins+j))
+			}
+			e.tr.Add("Addrs", "n", len(e.addrs), "ts", e.now())
 			e.mu.Unlock()
 		case "offline":
 			synctest.Wait()
@@ -491,6 +513,9 @@ func genSWScenario(r *rand.Rand) *SWScenario {
 		case x < 19:
 			sc.Ops = append(sc.Ops, SWOp{Kind: "restart"}, SWOp{Kind: "advance", Mins: 10}, SWOp{Kind: "settle"})
 		default:
+			if os.Getenv("VERIF_SW_NOADDRS") == "" {
+				sc.Ops = append(sc.Ops, SWOp{Kind: "addrs", Mins: 1 + r.Intn(50)})
+			}
 			sc.Ops = append(sc.Ops, SWOp{Kind: "settle"})
 		}
 	}
